@@ -91,7 +91,9 @@ public:
   }
 
   const ValueT& at(const KeyT& k) const {
-    Item& item = this->items.at(k);
+    // Looking up an item refreshes its recency even through a const reference
+    // (head, tail and the link fields are mutable for this reason)
+    Item& item = const_cast<Item&>(this->items.at(k));
     this->touch_item(item);
     return item.value;
   }
@@ -105,7 +107,10 @@ public:
     auto item_it = this->items.find(k);
     if (item_it == this->items.end()) {
       new_item_created = true;
-      item_it = this->items.emplace(k, size);
+      item_it = this->items.emplace(std::piecewise_construct,
+                               std::forward_as_tuple(k),
+                               std::forward_as_tuple(v, size))
+                    .first;
     }
 
     auto& i = item_it->second;
@@ -113,7 +118,7 @@ public:
     if (new_item_created) {
       i.key = &item_it->first;
       i.size = size;
-      i.total_size += size;
+      this->total_size += size;
       this->link_item(&i);
       return true;
 
